@@ -682,3 +682,74 @@ Section CacheProofs.
     rewrite W, M. simpl. rewrite V. ring.
   Qed.
 End CacheProofs.
+
+(* ====================================================================================== *)
+(* package arrays follow the chemicals through refresh_constants                              *)
+Definition is_edit (o : pop) : bool := match o with PSetHf _ _ => true | _ => false end.
+Definition syncedA (s : pkgstate) : Prop := arrA s = chemHf s.
+Definition syncedB (ob : list nat) (s : pkgstate) : Prop := arrB s = map (nthq (chemHf s)) ob.
+
+Lemma pstep_edit_keeps_arrays ob s i v :
+  arrA (pstep ob s (PSetHf i v)) = arrA s /\ arrB (pstep ob s (PSetHf i v)) = arrB s.
+Proof. split; reflexivity. Qed.
+
+Lemma prun_noedit_syncedA ob post : forall s, forallb (fun o => negb (is_edit o)) post = true ->
+  syncedA s -> syncedA (prun ob s post).
+Proof.
+  unfold prun. induction post as [|o t IH]; intros s N S; simpl; auto.
+  simpl in N. apply Bool.andb_true_iff in N. destruct N as (No & Nt). apply IH; auto.
+  destruct o; simpl in *; try discriminate; unfold syncedA in *; simpl; auto.
+Qed.
+
+Lemma prun_noedit_syncedB ob post : forall s, forallb (fun o => negb (is_edit o)) post = true ->
+  syncedB ob s -> syncedB ob (prun ob s post).
+Proof.
+  unfold prun. induction post as [|o t IH]; intros s N S; simpl; auto.
+  simpl in N. apply Bool.andb_true_iff in N. destruct N as (No & Nt). apply IH; auto.
+  destruct o; simpl in *; try discriminate; unfold syncedB in *; simpl; auto.
+Qed.
+
+Lemma prun_app ob s a b : prun ob s (a ++ b) = prun ob (prun ob s a) b.
+Proof. unfold prun. apply fold_left_app. Qed.
+
+(* whatever was edited before, once refresh_constants has been called on a package and no chemical is
+   edited afterwards, the package's array holds the chemicals' heats of formation *)
+Lemma refresh_propagates_A ob s pre post : forallb (fun o => negb (is_edit o)) post = true ->
+  syncedA (prun ob s (pre ++ PRefreshA :: post)).
+Proof.
+  intros N. rewrite prun_app. change (PRefreshA :: post) with ([PRefreshA] ++ post). rewrite prun_app.
+  apply prun_noedit_syncedA; auto. unfold prun, syncedA. simpl. reflexivity.
+Qed.
+
+Lemma refresh_propagates_B ob s pre post : forallb (fun o => negb (is_edit o)) post = true ->
+  syncedB ob (prun ob s (pre ++ PRefreshB :: post)).
+Proof.
+  intros N. rewrite prun_app. change (PRefreshB :: post) with ([PRefreshB] ++ post). rewrite prun_app.
+  apply prun_noedit_syncedB; auto. unfold prun, syncedB. simpl. reflexivity.
+Qed.
+
+Lemma compiled_synced ob hf : syncedA (compiled ob hf) /\ syncedB ob (compiled ob hf).
+Proof. split; reflexivity. Qed.
+
+(* ====================================================================================== *)
+(* the equation-of-state arguments never outlive the solve that loaded them                  *)
+Fixpoint reads_ref (fresh : nat -> Q) (ops : list mop) : list Q :=
+  match ops with
+  | [] => []
+  | MRead k :: t => fresh k :: reads_ref fresh t
+  | MSolve _ _ :: t => reads_ref fresh t
+  end.
+
+Lemma mix_args_cleared fresh stale ops : forall m, margs m = None ->
+  margs (fst (fst (mrun fresh stale m ops))) = None /\
+  snd (fst (mrun fresh stale m ops)) = reads_ref fresh ops /\
+  Forall (fun b => b = true) (snd (mrun fresh stale m ops)).
+Proof.
+  induction ops as [|o t IH]; intros m E; simpl; [repeat split; auto|].
+  destruct o as [k|k ok]; simpl.
+  - destruct (IH m E) as (A & B & C). destruct (mrun fresh stale m t) as [[m2 r2] f2]. simpl in *.
+    rewrite E. repeat split; auto.
+    + unfold H_eval. rewrite E. rewrite B. reflexivity.
+  - destruct (IH (mkM None) eq_refl) as (A & B & C). destruct (mrun fresh stale (mkM None) t) as [[m2 r2] f2]. simpl in *.
+    repeat split; auto.
+Qed.
